@@ -35,6 +35,9 @@ def to_repo_block(blk, objform=False, admin=False):
     base = dict(type_code=blk['type'], block_num=blk['num'], block_flags=blk['flags'], crc_type=blk['crc_type'])
     if objform == 'bound' and blk['type'] in (6, 7, 10):
         del base['type_code']
+    if blk.get('unnumbered'):
+        # left to Agent.send_bundle, which documents that it assigns block numbers
+        del base['block_num']
     data = bytes.fromhex(blk['data'])
     if objform:
         try:
